@@ -14,6 +14,7 @@ import (
 	"sort"
 	"strconv"
 	"strings"
+	"sync/atomic"
 	"time"
 )
 
@@ -274,7 +275,7 @@ func checkProperty(c *Ctx, p *Property, known *KnownFile, verifDir string, write
 		crashMu.Lock()
 		abstractCalls, entryPoints := 0, len(crashLog)
 		for _, e := range crashLog {
-			abstractCalls += e.calls
+			abstractCalls += int(atomic.LoadInt64(&e.calls))
 		}
 		crashMu.Unlock()
 		entered, totalFns, notEntered := c.coverageSummary()
